@@ -47,7 +47,8 @@ COMPONENTS_REAL = ["BinarySymmetricChannel", "BinaryErasureChannel", "BinaryZCha
 COMPONENTS_STUB = ["random source: torch generator seeded by the simulator", "input bit source (local torch.Generator)"]
 
 PROBS = [0.0, 1e-3, 0.01, 0.05, 0.11, 0.25, 0.5, 0.75, 0.9, 0.99, 0.999, 1.0]
-DT = {"float32": torch.float32, "float64": torch.float64, "int64": torch.int64, "int32": torch.int32, "bool": torch.bool}
+DT = {"float32": torch.float32, "float64": torch.float64, "int64": torch.int64, "int32": torch.int32, "bool": torch.bool,
+      "float16": torch.float16, "bfloat16": torch.bfloat16, "int8": torch.int8}
 
 
 def gen_case(run_seed: int, index: int, tier: str) -> dict:
@@ -59,7 +60,7 @@ def gen_case(run_seed: int, index: int, tier: str) -> dict:
         shape = rng.choice([[1 << 20], [1024, 1024], [4096, 256], [16, 256, 256], [999, 1051], [333, 3001]])
     else:
         shape = rng.choice([[1], [7], [64], [3, 5], [1, 9], [9, 1], [2, 3, 4], [2, 2, 2, 3], [1000], [37, 11], [5, 1, 1], [2, 3, 1, 4]])
-    dtype = rng.choice(["float32", "float32", "float64", "int64", "int32"] + (["bool"] if alphabet == "01" else []))
+    dtype = rng.choice(["float32", "float32", "float64", "int64", "int32", "float16", "bfloat16", "int8"] + (["bool"] if alphabet == "01" else []))
     p = rng.choice(PROBS) if rng.random() < 0.8 else round(rng.random(), 4)
     es = rng.choice([-1, -1, 2, 0.5, 7]) if alphabet == "01" else rng.choice([0, 0, 2, 0.5])
     return {
